@@ -1,6 +1,8 @@
 """Boundary recorder for ModeDReader / DataReadout."""
 from __future__ import annotations
 
+import copy
+
 from vf.mon import clock, containers, steps
 from vf.mon.hdlc_mon import _with_empty_calls as hdlc_mon_empty
 
@@ -101,6 +103,14 @@ def run(chunks, reader=None, states: set | None = None):
             continue
         again = observe(m)
         o["changed_later"] = any(again[k] != o[k] for k in ("bytes", "valid", "payload"))
+        if not o["changed_later"] and _runs % 4 == 1 and (len(out) < 8 or id(m) % 4 == 0):
+            # a duplicate of the message (an application may hand a copy to another thread / keep one in a cache) answers like the message
+            try:
+                dup = observe(copy.deepcopy(m))
+            except Exception:
+                dup = None  # duplication not supported: not judged
+            if dup is not None:
+                o["changed_later"] = any(dup[k] != o[k] for k in ("bytes", "valid", "payload"))
     return out, err[0], err[1]
 
 
